@@ -82,7 +82,7 @@ pub fn run(ctx: &mut Ctx) {
             grid.push((st, (1u128 << (w / 2)) - 1, false));
         }
     }
-    let reps = ctx.q(30u64, 300);
+    let reps = ctx.q(60u64, 600);
     let total = grid.len() as u64 * reps;
     ctx.cases("grid", total, |ctx, idx| {
         let (st, scale, pow2) = grid[(idx % grid.len() as u64) as usize];
